@@ -142,7 +142,24 @@ pub fn check(input: &String, acc: &mut Acc) {
 }
 
 pub fn run(ctx: &Ctx) -> i32 {
-    let inputs = numeric_inputs();
+    let mut inputs = numeric_inputs();
+    // the thread count next to other options and inside an expression
+    let threads: Vec<String> = inputs.iter().filter(|s| s.starts_with("-threads ")).cloned().collect();
+    for t in &threads {
+        for (pre, suf) in [("", " -name x -depth"), ("-depth ", " -name x"), ("-name x ", ""), ("-name x -depth ", " -print"), ("-threads 5 ", " -true -depth")] {
+            inputs.push(format!("{pre}{t}{suf}"));
+        }
+    }
+    // quoted numeric arguments: text outside the number language can never be accepted
+    for kw in ["-uid", "-links", "-size", "-mtime", "-amin", "-inum", "-stripe-count", "-threads"] {
+        for a in ["5", "+5", "1.5", "0x10", "1e3", "7 days", "4 294", "5k", "5kk", " 5", "5 ", "+", "", "5-", "０５"] {
+            if a.is_empty() {
+                continue;
+            }
+            inputs.push(format!("{kw} '{a}'"));
+            inputs.push(format!("{kw} \"{a}\" -print"));
+        }
+    }
     let acc = par_items(&inputs, check);
     let mut extra = serde_json::Map::new();
     extra.insert("inputs".into(), json!(inputs.len()));
